@@ -85,7 +85,8 @@ RULE_C01 = ("layouts from vf.ref.t1_layout (static 120-byte memory: 0-3 NULL TLV
             "0,1,253..256,capacity-1,capacity,capacity+1,adjacent-to-reserved,random; a case is (image, message), "
             "non-trivial when the write was attempted and both readers (fresh nfcpy instance, reference reader on raw "
             "memory) were compared, or the oversize rejection was checked against the command counter")
-REQUIRED_C01 = ["t1t_roundtrips", "t1t_oversize_rejected", "t1t_capacity_checked"]
+REQUIRED_C01 = ["t1t_roundtrips", "t1t_oversize_rejected", "t1t_capacity_checked",
+                "t1t_c01_layouts_header_across_reserved_blocks"]
 
 
 def c01_lengths(rng, L, cap, extra=2):
@@ -126,6 +127,8 @@ def run_c01(desc, R, rng):
     for i in range(desc["layouts"]):
         L = gen_layout(rng, desc["mix"])
         td = tagdesc(L)
+        if L.hdr_straddle:
+            R.count("t1t_c01_layouts_header_across_reserved_blocks")
         if i < desc.get("all_lengths", 0) and not L.dynamic:
             lengths = list(range(L.capacity + 2))
             R.count("t1t_static_layouts_with_every_length")
@@ -244,7 +247,8 @@ RULE_C02 = ("writes (image, old message, new message) on static memory (byte-wis
             "sides of 254/255 and up to capacity; for each write every cut point k=0..n (n = state changing commands of "
             "the uninterrupted write, measured) is executed with dev.arm_cut(k); a case is (write, k), non-trivial when "
             "the fresh reader and the reference reader were both evaluated on the memory left behind")
-REQUIRED_C02 = ["t1t_cut_runs", "t1t_cut_outcome_old", "t1t_cut_outcome_new", "t1t_cut_straddling_layouts"]
+REQUIRED_C02 = ["t1t_cut_runs", "t1t_cut_outcome_old", "t1t_cut_outcome_new", "t1t_cut_straddling_layouts",
+                "t1t_cut_layouts_header_across_reserved_blocks"]
 
 
 def plan_c02(tier):
@@ -273,14 +277,21 @@ def run_c02(desc, R, rng):
         else:
             align = (desc.get("first_align", 0) + i) % 8
             phys = rng.choice([256, 512, 512, 1024]) if desc["tier"] == "quick" else rng.choice([256, 512, 512, 1024, 2048])
-            for _ in range(50):
+            for _ in range(50 if i % 8 != 7 else 0):
                 L = TL.gen_dynamic(rng, phys=phys, data_size=phys if rng.random() < 0.7 else None, align=align,
                                    old_len=rng.choice(["zero", "short", "long", "long", None]),
                                    classes=["factory", "inside", "tail", "beyond-data", "adjacent"])
                 if L.offset % 8 == align:       # a declared range right behind the control TLVs pushes the NDEF TLV
                     break
             else:
-                raise AssertionError("no layout with NDEF TLV alignment %d" % align)
+                if i % 8 != 7:
+                    raise AssertionError("no layout with NDEF TLV alignment %d" % align)
+                # every 8th write: the NDEF TLV's T byte 1..3 bytes in front of blocks Dh..Fh, length field behind them
+                L = TL.gen_dynamic(rng, phys=phys, data_size=phys if rng.random() < 0.7 else None,
+                                   old_len=rng.choice(["zero", "short", "long", "long", None]),
+                                   classes=["factory", "inside", "tail", "beyond-data", "adjacent"], hdr_straddle=True)
+                if L.hdr_straddle:
+                    R.count("t1t_cut_layouts_header_across_reserved_blocks")
             new_len = c02_pick_len(rng, L.capacity, rng.choice(["short", "edge", "long", "long"]))
             new_len = max(1, new_len)
         new = rng.randbytes(new_len)
@@ -334,7 +345,7 @@ def c02_case(case, R):
         R.count("t1t_cut_reference_write_failed")
         return
     wkey = digest(image, case["hr0"], new)
-    straddle = len(new) >= 255 and mem == "dynamic" and (ref0.offset + 1) // 8 != (ref0.offset + 3) // 8
+    straddle = len(new) >= 255 and mem == "dynamic" and ref0.free[1] // 8 != ref0.free[3] // 8
     if straddle:
         R.count("t1t_cut_straddling_layouts")
     elif len(new) >= 255:
@@ -401,7 +412,8 @@ RULE_C03 = ("operations (ndef.octets = m for lengths 0..capacity incl. adjacent-
             "layouts plus blank / random / previously formatted product images; a case is (image, operation), "
             "non-trivial when the byte-wise memory diff and the write command log were both checked against the "
             "allowed set derived by the reference reader")
-REQUIRED_C03 = ["t1t_c03_write_ops", "t1t_c03_format_ops", "t1t_c03_write_commands_inspected", "t1t_c03_bytes_diffed"]
+REQUIRED_C03 = ["t1t_c03_write_ops", "t1t_c03_format_ops", "t1t_c03_write_commands_inspected", "t1t_c03_bytes_diffed",
+                "t1t_c03_layouts_header_across_reserved_blocks"]
 
 
 def plan_c03(tier):
@@ -440,6 +452,8 @@ def run_c03(desc, R, rng):
     for i in range(desc["layouts"]):
         L = gen_layout(rng, desc["mix"])
         td = tagdesc(L)
+        if L.hdr_straddle:
+            R.count("t1t_c03_layouts_header_across_reserved_blocks")
         cap = L.capacity
         lens = [cap, rng.randrange(cap + 1), rng.choice([0, 1, 2, min(cap, 254), min(cap, 255)])]
         if L.adjacent_len:
@@ -582,7 +596,7 @@ RULE_C08 = ("images: random; valid CC + random TLV area; valid layouts with 1-3 
             "geometries static 120 (TMS 96) and dynamic 256..1024 bytes physical with the data area declared shorter than "
             "the physical memory, whose bytes behind the data area hold a distinct pattern (same oracles: length<=capacity, "
             "octets unchanged when everything outside the declared data area is inverted)")
-REQUIRED_C08 = ["t1t_c08_cases", "t1t_c08_step_budget_armed", "t1t_c08_outcome_none", "t1t_c08_outcome_ndef", "t1t_c08_mute_positions",
+REQUIRED_C08 = ["t1t_c08_images_header_across_reserved_blocks", "t1t_c08_cases", "t1t_c08_step_budget_armed", "t1t_c08_outcome_none", "t1t_c08_outcome_ndef", "t1t_c08_mute_positions",
                 "t1t_c08_adversarial_responses", "t1t_c08_noninterference_checked",
                 "t1t_c08_tlv_end_cases", "t1t_c08_tlv_end_form3_len_below_255", "t1t_c08_tlv_end_memory_behind",
                 "t1t_c08_tlv_end_rsv_before", "t1t_c08_tlv_end_rsv_inside", "t1t_c08_tlv_end_fit_returned_value",
@@ -747,7 +761,9 @@ def c08_gen(rng):
         c = {"image": bytes(img), "cls": "cc+random-tlvs"}
     else:
         L = TL.gen_static(rng) if rng.random() < 0.35 else TL.gen_dynamic(rng)
-        if rng.random() < 0.1:
+        if L.hdr_straddle:
+            c = {"image": L.image, "cls": "valid-header-across-reserved-blocks"}
+        elif rng.random() < 0.1:
             c = {"image": L.image, "cls": "valid"}
         else:
             img, names = c08_mutate(rng, L)
@@ -949,7 +965,7 @@ def c08_tlv_end_image(rng, geo, form, ln, d, variant):
 
 def run_c08_tlv_end(desc, R, rng):
     form = desc["tlv_end"]
-    specs = TE.enumerate_specs(rng, form, desc["tier"], len(TLV_END_GEO))
+    specs = TE.enumerate_specs(rng, form, desc["tier"], len(TLV_END_GEO), heavy=(4,))
     if desc.get("parts"):
         specs = specs[desc["part"]::desc["parts"]]
     case = None
@@ -998,6 +1014,8 @@ def run_c08(desc, R, rng):
     for i in range(desc["images"]):
         case = c08_gen(rng)
         R.seen("t1t_c08_image_classes", case["cls"])
+        if case["cls"].startswith("valid-header-across"):
+            R.count("t1t_c08_images_header_across_reserved_blocks")
         for m in case.get("mutations", ()):
             R.seen("t1t_c08_mutations", m)
         out, ncmd, log = c08_case(case, R)
